@@ -15,7 +15,8 @@ Example labels_ok :
   str "tls13 " = L_tls13 /\ str "derived" = L_derived /\
   str "c hs traffic" = L_c_hs_traffic /\ str "s hs traffic" = L_s_hs_traffic /\
   str "c ap traffic" = L_c_ap_traffic /\ str "s ap traffic" = L_s_ap_traffic /\
-  str "key" = L_key /\ str "iv" = L_iv /\ str "finished" = L_finished.
+  str "key" = L_key /\ str "iv" = L_iv /\ str "finished" = L_finished /\
+  str "TLS 1.3, server CertificateVerify" = L_cv13_server /\ str "TLS 1.3, client CertificateVerify" = L_cv13_client.
 Proof. repeat split; reflexivity. Qed.
 
 (* ---------- tls_prf = P_hash of RFC 5246 section 5 (with HMAC-SM3) ---------- *)
